@@ -75,6 +75,16 @@ def check(rep, an, tier):
                           construct=f"offset removed before {ev.text()}", entry=entry, config=res.config,
                           msg="the offset subtracted from the vertices and the targets does not depend on lb: for lb ≠ 0 the cone of an unbounded "
                               "system is anchored at the wrong point, so targets below the lower bounds (even the all-off capture) are accepted")
+                # … and it is one value PER CHANNEL (the vertex axis alone is reduced): a single scalar for all channels is the apex only
+                # when every channel has the same darkest capture
+                ms, ps = (m.flat().shape if m is not None else None), (P.flat().shape if P is not None else None)
+                if ms is not None and ps is not None and not ms.ell and not ps.ell and ps.rank >= 1:
+                    per_channel = ms.rank >= 1 and ms.axes[-1] == ps.axes[-1]
+                    rep.check("R-QTY", "unbounded gamut: the apex is taken per channel", per_channel, where=ev.loc,
+                              construct=f"offset removed before {ev.text()}", entry=entry, config=res.config,
+                              msg=f"the offset subtracted from the vertices has shape {ms} (an overall extremum) instead of one value per channel: "
+                                  f"with lb > 0 or a non-zero baseline the channels have different darkest captures, the cone is anchored at a "
+                                  f"point outside the gamut and reachable targets are called out of gamut")
         F.qty(rep, res, entry, allow=allow, subs=("mismatch", "literal"))
         R.rule_type_errors(rep, res, "SHAPE", "R-SHAPE", entry)
         R.rule_purity(rep, res, entry)
